@@ -1260,16 +1260,57 @@ def check_rw_extra(res, facts):
             # (`read_exact` on a short buffer) - `remaining() < dst.len()` dominates the construction of the error
             from .logic import Ctx
             rem_m_ = "remaining" if tr.endswith("Read") else "remaining_mut"
+            buf_f_ = self_field("buf")
+            xfer_blocks = set()
+            for bi_, t_ in b.calls():
+                fn_ = callee(t_)
+                if fn_ is not None and not b.blocks[bi_]["cleanup"] and fn_["name"] in ("copy_to_slice", "try_copy_to_slice", "put_slice", "advance", "advance_mut", "copy_to_bytes", "put_bytes", "put") \
+                        and t_["args"] and buf_f_(strip_refs(canon(ExprBuilder(b, facts, inline=False).operand(t_["args"][0], (bi_, len(b.blocks[bi_]["stmts"])))))):
+                    xfer_blocks.add(bi_)
             for bi_, blk_ in enumerate(b.blocks):
                 if blk_["cleanup"]:
                     continue
-                if any(s_["k"] == "assign" and s_["rv"]["k"] == "agg" and str(s_["rv"].get("adt", "")).endswith("Result") and s_["rv"].get("variant") == "Err" for s_ in blk_["stmts"]):
+                t__ = blk_["term"]
+                via_q = t__["k"] == "call" and callee(t__) is not None and callee(t__)["name"] == "from_residual"
+                if via_q or any(s_["k"] == "assign" and s_["rv"]["k"] == "agg" and str(s_["rv"].get("adt", "")).endswith("Result") and s_["rv"].get("variant") == "Err" for s_ in blk_["stmts"]):
                     ctx_ = Ctx(b, bi_, facts)
+                    # "transfer min(available, requested)": what is there has gone through before the adapter gives up (std's write_all writes the
+                    # prefix that fits, read_exact reads what is left) - every way to the error passes a transfer, or nothing is left at all
+                    cfg_ = cfg_of(b)
+                    seen__, st__, skipped = {0}, [0], False
+                    while st__ and not skipped:
+                        x__ = st__.pop()
+                        if x__ == bi_:
+                            skipped = True
+                            break
+                        for y__ in cfg_.succ[x__]:
+                            if y__ not in seen__ and y__ not in xfer_blocks and not b.blocks[y__]["cleanup"]:
+                                seen__.add(y__)
+                                st__.append(y__)
+                    none_left = any(r_ and r_[0] in ("eq", "le") and len(r_) > 2 and isinstance(r_[1], tuple) and isinstance(r_[2], tuple)
+                                    and ucall_on(rem_m_, "buf")(strip_refs(canon(r_[1]))) and canon(r_[2]) == ("const", 0) for r_ in ctx_.rels)
+                    kx = "%s::%s|what is there is transferred before failing" % (head.rsplit("::", 1)[-1], it["name"])
+                    if skipped and not none_left and 0 not in xfer_blocks:
+                        res.bad(kx, b.loc(bi_), "a path reaches this Err without moving anything through self.buf although %s() may be non-zero: the adapter refuses where it "
+                                                "must transfer min(available, requested)" % rem_m_)
+                    else:
+                        res.ok(kx, b.loc(bi_), "every way to the error passes a transfer (or nothing is left)", nontrivial=True)
                     short = False
                     for r_ in ctx_.rels:
                         if r_ and r_[0] == "lt" and len(r_) > 2 and isinstance(r_[1], tuple) and isinstance(r_[2], tuple) \
                                 and ucall_on(rem_m_, "buf")(strip_refs(canon(r_[1]))) and any(x == ("param", 2) for x in walk(canon(r_[2]))):
                             short = True
+                    if not short:
+                        # .. or it follows: `let n = min(remaining, len); ..; if n < len { Err }`
+                        from .lin import State as _St
+                        rems_ = [x for r_ in ctx_.rels if r_ for side in r_[1:3] if isinstance(side, tuple) for x in walk(canon(side))
+                                 if isinstance(x, tuple) and x and ucall_on(rem_m_, "buf")(strip_refs(x))]
+                        if rems_:
+                            try:
+                                st_ = _St([r_ for r_ in ctx_.rels if r_ and r_[0] in ("lt", "le", "eq", "ne")], facts=facts)
+                                short = (not st_.refuted()) and st_.entails(("lt", rems_[0], ("call", "core::slice::<impl [T]>::len", (("param", 2),))))
+                            except (ValueError, KeyError, TypeError, RecursionError):
+                                short = False
                     kerr = "%s::%s|Err only when short" % (head.rsplit("::", 1)[-1], it["name"])
                     if short:
                         res.ok(kerr, b.loc(bi_), "the error is built under %s() < requested" % rem_m_, nontrivial=True)
